@@ -1030,6 +1030,7 @@ impl CommitEnv for LsmCommitEnv {
 			// Try to add to current memtable
 			let result = {
 				let active_memtable = self.core.active_memtable.read()?;
+				verif_yield!("lk.apply.active");
 				self.add_to_active(&active_memtable, batch)
 			};
 
